@@ -8,41 +8,526 @@ def stopEff' (positions : List Int) (stop? : Option Int) : Int :=
   | some e => if e ≠ 0 then e else positions.getLast?.getD 0
   | none   => positions.getLast?.getD 0
 
+namespace Vector
+
+theorem insertByKey_perm {α} (key : α → Int) (a : α) (l : List α) :
+    (insertByKey key a l).Perm (a :: l) := by
+  induction l with
+  | nil => exact List.Perm.refl _
+  | cons b bs ih =>
+    unfold insertByKey
+    split
+    · exact List.Perm.refl _
+    · exact (List.Perm.cons b ih).trans (List.Perm.swap a b bs)
+
+theorem isort_perm {α} (key : α → Int) (l : List α) : (isort key l).Perm l := by
+  induction l with
+  | nil => exact List.Perm.refl _
+  | cons x xs ih =>
+    unfold isort
+    exact (insertByKey_perm key x _).trans (List.Perm.cons x ih)
+
+theorem insertByKey_sorted {α} (key : α → Int) (a : α) (l : List α)
+    (h : l.Pairwise (fun x y => key x ≤ key y)) :
+    (insertByKey key a l).Pairwise (fun x y => key x ≤ key y) := by
+  induction l with
+  | nil => simp [insertByKey]
+  | cons b bs ih =>
+    unfold insertByKey
+    rw [List.pairwise_cons] at h
+    split
+    · rename_i hab
+      rw [List.pairwise_cons]
+      refine ⟨?_, List.pairwise_cons.mpr h⟩
+      intro y hy
+      rcases List.mem_cons.mp hy with rfl | hy
+      · exact hab
+      · exact Int.le_trans hab (h.1 y hy)
+    · rename_i hab
+      rw [List.pairwise_cons]
+      refine ⟨?_, ih h.2⟩
+      intro y hy
+      have := (insertByKey_perm key a bs).mem_iff.mp hy
+      rcases List.mem_cons.mp this with rfl | hy
+      · omega
+      · exact h.1 y hy
+
+theorem isort_sorted {α} (key : α → Int) (l : List α) :
+    (isort key l).Pairwise (fun x y => key x ≤ key y) := by
+  induction l with
+  | nil => simp [isort]
+  | cons x xs ih =>
+    unfold isort
+    exact insertByKey_sorted key x _ ih
+
+theorem getD_drop (v : List Nat) (s i : Nat) : (v.drop s).getD i 0 = v.getD (s + i) 0 := by
+  simp [List.getD_eq_getElem?_getD, List.getElem?_drop]
+
+theorem getD_shift (v : List Nat) (s i : Nat) :
+    (List.replicate s 0 ++ v).getD i 0 = if i < s then 0 else v.getD (i - s) 0 := by
+  simp only [List.getD_eq_getElem?_getD, List.getElem?_append, List.length_replicate]
+  split
+  · rename_i h; simp [h]
+  · rfl
+
+theorem getD_ne_zero_lt (v : List Nat) (i : Nat) (h : v.getD i 0 ≠ 0) : i < v.length := by
+  apply Classical.byContradiction
+  intro hn
+  apply h
+  simp [List.getD_eq_getElem?_getD, List.getElem?_eq_none (Nat.le_of_not_lt hn)]
+
+theorem orLong_length_ge (a b : List Nat) : a.length ≤ (orLong a b).length := by
+  induction a generalizing b with
+  | nil => simp
+  | cons x xs ih =>
+    cases b with
+    | nil => simp [orLong]
+    | cons y ys => simp [orLong]; exact ih ys
+
+theorem orLong_ne (a b : List Nat) (i : Nat) :
+    (orLong a b).getD i 0 ≠ 0 ↔ a.getD i 0 ≠ 0 ∨ b.getD i 0 ≠ 0 := by
+  induction a generalizing b i with
+  | nil => simp [orLong]
+  | cons x xs ih =>
+    cases b with
+    | nil => simp [orLong]
+    | cons y ys =>
+      cases i with
+      | zero =>
+        simp only [orLong, List.getD_cons_zero]
+        split <;> simp_all
+      | succ i =>
+        simp only [orLong, List.getD_cons_succ]
+        exact ih ys i
+
+theorem orLong_bit (a b : List Nat) (i : Nat) (hi : i < a.length)
+    (h : a.getD i 0 = 0 ∨ a.getD i 0 = 1) :
+    (orLong a b).getD i 0 = 0 ∨ (orLong a b).getD i 0 = 1 := by
+  induction a generalizing b i with
+  | nil => simp at hi
+  | cons x xs ih =>
+    cases b with
+    | nil => simpa [orLong] using h
+    | cons y ys =>
+      cases i with
+      | zero =>
+        simp only [orLong, List.getD_cons_zero]
+        split <;> simp
+      | succ i =>
+        simp only [orLong, List.getD_cons_succ]
+        exact ih ys i (by simpa using hi) (by simpa using h)
+
+theorem blurGo_spec (v : List Nat) : ∀ (n s : Nat) (acc : List Nat), v.length ≤ acc.length →
+    v.length ≤ (blurGo v s n acc).length ∧ ∀ i, i < v.length →
+      ((acc.getD i 0 = 0 ∨ acc.getD i 0 = 1) →
+        ((blurGo v s n acc).getD i 0 = 0 ∨ (blurGo v s n acc).getD i 0 = 1)) ∧
+      ((blurGo v s n acc).getD i 0 ≠ 0 ↔ acc.getD i 0 ≠ 0 ∨
+        ∃ t, s ≤ t ∧ t < s + n ∧ (v.getD (i + t) 0 ≠ 0 ∨ (t ≤ i ∧ v.getD (i - t) 0 ≠ 0))) := by
+  intro n
+  induction n with
+  | zero =>
+    intro s acc hl
+    refine ⟨hl, fun i _ => ⟨fun h => h, ?_⟩⟩
+    simp only [blurGo]
+    constructor
+    · intro h; exact Or.inl h
+    · rintro (h | ⟨t, h1, h2, _⟩)
+      · exact h
+      · omega
+  | succ n ih =>
+    intro s acc hl
+    simp only [blurGo]
+    have hl1 : v.length ≤ (orLong acc (v.drop s)).length :=
+      Nat.le_trans hl (orLong_length_ge _ _)
+    have hl2 : v.length ≤ (orLong (orLong acc (v.drop s)) (List.replicate s 0 ++ v)).length :=
+      Nat.le_trans hl1 (orLong_length_ge _ _)
+    obtain ⟨hlen, hrest⟩ := ih (s + 1) _ hl2
+    refine ⟨hlen, fun i hi => ?_⟩
+    obtain ⟨hb, hiff⟩ := hrest i hi
+    constructor
+    · intro hacc
+      apply hb
+      apply orLong_bit _ _ _ (by omega)
+      exact orLong_bit _ _ _ (by omega) hacc
+    · rw [hiff, orLong_ne, orLong_ne, getD_drop, getD_shift]
+      constructor
+      · rintro (((h | h) | h) | ⟨t, h1, h2, h3⟩)
+        · exact Or.inl h
+        · refine Or.inr ⟨s, Nat.le_refl _, by omega, Or.inl ?_⟩
+          rwa [Nat.add_comm]
+        · split at h
+          · exact absurd rfl h
+          · exact Or.inr ⟨s, Nat.le_refl _, by omega, Or.inr ⟨by omega, h⟩⟩
+        · exact Or.inr ⟨t, by omega, by omega, h3⟩
+      · rintro (h | ⟨t, h1, h2, h3⟩)
+        · exact Or.inl (Or.inl (Or.inl h))
+        · by_cases hts : t = s
+          · subst hts
+            rcases h3 with h3 | ⟨h3, h4⟩
+            · left; left; right; rwa [Nat.add_comm]
+            · left; right
+              rw [if_neg (by omega)]; exact h4
+          · exact Or.inr ⟨t, by omega, by omega, h3⟩
+
+theorem getD_map_norm (v : List Nat) (i : Nat) :
+    (v.map fun x => if x ≠ 0 then 1 else 0).getD i 0 = if v.getD i 0 ≠ 0 then 1 else 0 := by
+  induction v generalizing i with
+  | nil => simp
+  | cons x xs ih =>
+    cases i with
+    | zero => simp
+    | succ i => simpa using ih i
+
+theorem ediv_step (a res : Int) (hres : 1 ≤ res) (ha : res ≤ a) :
+    a / res = (a - res) / res + 1 ∧ 0 ≤ (a - res) / res := by
+  have h := Int.add_mul_ediv_right (a - res) 1 (c := res) (by omega)
+  have h2 : a - res + 1 * res = a := by omega
+  rw [h2] at h
+  exact ⟨h, Int.ediv_nonneg (by omega) (by omega)⟩
+
+theorem vecWhile_spec (res stop p : Int) (hres : 1 ≤ res) :
+    ∀ (f : Nat) (ws : Int) (z : Nat), ws ≤ p → ((p - ws) / res).toNat < f →
+      ∃ k : Nat, (vecWhile res stop p f ws z).1 = z + k ∧
+        (vecWhile res stop p f ws z).2.1 = ws + k * res ∧
+        ((vecWhile res stop p f ws z).2.2 = false →
+          (vecWhile res stop p f ws z).2.1 ≤ p ∧ p < (vecWhile res stop p f ws z).2.1 + res) ∧
+        ((vecWhile res stop p f ws z).2.2 = true →
+          stop < (vecWhile res stop p f ws z).2.1 ∧ (vecWhile res stop p f ws z).2.1 ≤ p ∧ 1 ≤ k) := by
+  intro f
+  induction f with
+  | zero => intro ws z _ h; omega
+  | succ f ih =>
+    intro ws z hws hf
+    unfold vecWhile
+    by_cases h1 : p ≥ ws + res
+    · rw [if_pos h1]
+      by_cases h2 : ws + res > stop
+      · rw [if_pos h2]
+        refine ⟨1, rfl, by simp, by simp, fun _ => ⟨h2, h1, Nat.le_refl _⟩⟩
+      · rw [if_neg h2]
+        have hd := ediv_step (p - ws) res hres (by omega)
+        have e : p - ws - res = p - (ws + res) := by omega
+        rw [e] at hd
+        obtain ⟨k, hk1, hk2, hk3, hk4⟩ := ih (ws + res) (z + 1) h1 (by omega)
+        refine ⟨k + 1, by omega, ?_, hk3, ?_⟩
+        · rw [hk2]; push_cast; rw [Int.add_mul, Int.one_mul]; omega
+        · intro hs; have := hk4 hs; omega
+    · rw [if_neg h1]
+      refine ⟨0, rfl, by simp, fun _ => ⟨hws, ?_⟩, by simp⟩
+      show p < ws + res
+      omega
+
+theorem vecGo_lt (res stop ws p : Int) (ps : List Int) (h : p < ws) :
+    vecGo res stop ws (p :: ps) = vecGo res stop ws ps := by
+  rw [vecGo, if_pos h]
+
+theorem vecGo_ge (res stop ws p : Int) (ps : List Int) (hres : 1 ≤ res) (h : ws ≤ p) :
+    ∃ k : Nat, ws + k * res ≤ p ∧
+      ((p < ws + k * res + res ∧
+          vecGo res stop ws (p :: ps) =
+            List.replicate k 0 ++ 1 :: vecGo res stop (ws + k * res + res) ps) ∨
+       (stop < ws + k * res ∧ vecGo res stop ws (p :: ps) = List.replicate k 0)) := by
+  rw [vecGo, if_neg (by omega)]
+  obtain ⟨k, hk1, hk2, hk3, hk4⟩ :=
+    vecWhile_spec res stop p hres (((p - ws) / res).toNat + 1) ws 0 h (Nat.lt_succ_self _)
+  simp only []
+  generalize vecWhile res stop p (((p - ws) / res).toNat + 1) ws 0 = r at *
+  obtain ⟨r1, r2, r3⟩ := r
+  simp only at hk1 hk2 hk3 hk4 ⊢
+  have hk1' : r1 = k := by omega
+  subst hk1' hk2
+  refine ⟨r1, ?_⟩
+  cases r3 with
+  | false =>
+    have := hk3 rfl
+    exact ⟨this.1, Or.inl ⟨this.2, by simp⟩⟩
+  | true =>
+    have := hk4 rfl
+    exact ⟨this.2.1, Or.inr ⟨this.1, by simp⟩⟩
+
+theorem mul_mono (a b : Nat) (res : Int) (h : a ≤ b) (hres : 1 ≤ res) :
+    (a : Int) * res ≤ (b : Int) * res :=
+  Int.mul_le_mul_of_nonneg_right (by omega) (by omega)
+
+theorem succ_mul' (a : Nat) (res : Int) : ((a : Int) + 1) * res = a * res + res := by
+  rw [Int.add_mul, Int.one_mul]
+
+theorem shift_mul (k j : Nat) (res : Int) :
+    ((k + 1 + j : Nat) : Int) * res = k * res + res + j * res := by
+  push_cast
+  rw [Int.add_mul, Int.add_mul, Int.one_mul]
+
+theorem getD_rep_lt (k i : Nat) (l : List Nat) (h : i < k) :
+    (List.replicate k 0 ++ l).getD i 0 = 0 := by
+  simp [List.getD_eq_getElem?_getD, List.getElem?_append, h]
+
+theorem getD_rep_ge (k j : Nat) (l : List Nat) :
+    (List.replicate k 0 ++ l).getD (k + j) 0 = l.getD j 0 := by
+  have h : ¬ k + j < k := by omega
+  simp [List.getD_eq_getElem?_getD, List.getElem?_append, h]
+
+theorem vecGo_bits (res stop : Int) (hres : 1 ≤ res) :
+    ∀ (ps : List Int) (ws : Int), Ascending ps →
+      ∀ i, i < (vecGo res stop ws ps).length →
+        ((vecGo res stop ws ps).getD i 0 = 1 ∨ (vecGo res stop ws ps).getD i 0 = 0) ∧
+        ((vecGo res stop ws ps).getD i 0 = 1 ↔
+          ∃ p ∈ ps, ws + i * res ≤ p ∧ p < ws + (i + 1) * res) := by
+  intro ps
+  induction ps with
+  | nil => intro ws _ i hi; simp [vecGo] at hi
+  | cons p ps ih =>
+    intro ws hs i hi
+    have hs' : Ascending ps := (List.pairwise_cons.mp hs).2
+    have hle : ∀ q ∈ ps, p ≤ q := (List.pairwise_cons.mp hs).1
+    by_cases hp : p < ws
+    · rw [vecGo_lt _ _ _ _ _ hp] at hi ⊢
+      obtain ⟨h1, h2⟩ := ih ws hs' i hi
+      refine ⟨h1, h2.trans ⟨?_, ?_⟩⟩
+      · rintro ⟨q, hq, hq2⟩; exact ⟨q, List.mem_cons_of_mem _ hq, hq2⟩
+      · rintro ⟨q, hq, hq2, hq3⟩
+        rcases List.mem_cons.mp hq with rfl | hq
+        · have := mul_mono 0 i res (Nat.zero_le _) hres
+          simp only [Int.natCast_zero, Int.zero_mul] at this
+          omega
+        · exact ⟨q, hq, hq2, hq3⟩
+    · obtain ⟨k, hk, hcase⟩ := vecGo_ge res stop ws p ps hres (by omega)
+      -- bits before k are zero and hold no label
+      have hzero : ∀ i, i < k →
+          ¬ ∃ q ∈ p :: ps, ws + (i : Int) * res ≤ q ∧ q < ws + ((i : Int) + 1) * res := by
+        rintro i hik ⟨q, hq, _, hq3⟩
+        have hpq : p ≤ q := by
+          rcases List.mem_cons.mp hq with rfl | hq
+          · exact Int.le_refl _
+          · exact hle q hq
+        have := mul_mono (i + 1) k res hik hres
+        push_cast at this
+        omega
+      rcases hcase with ⟨hpk, heq⟩ | ⟨_, heq⟩
+      · rw [heq] at hi ⊢
+        by_cases hik : i < k
+        · rw [getD_rep_lt _ _ _ hik]
+          exact ⟨Or.inr rfl, ⟨fun h => by simp at h, fun h => absurd h (hzero i hik)⟩⟩
+        · obtain ⟨j, rfl⟩ : ∃ j, i = k + j := ⟨i - k, by omega⟩
+          rw [getD_rep_ge]
+          cases j with
+          | zero =>
+            simp only [List.getD_cons_zero, Nat.add_zero, true_or, true_iff, true_and]
+            refine ⟨p, List.mem_cons_self, hk, ?_⟩
+            rw [succ_mul']; omega
+          | succ j =>
+            simp only [List.getD_cons_succ]
+            have hj : j < (vecGo res stop (ws + k * res + res) ps).length := by
+              simp at hi; omega
+            obtain ⟨h1, h2⟩ := ih (ws + k * res + res) hs' j hj
+            refine ⟨h1, h2.trans ?_⟩
+            have e1 := shift_mul k j res
+            have e0 : k + (j + 1) = k + 1 + j := by omega
+            have e2 := succ_mul' j res
+            have e3 := succ_mul' (k + (j + 1)) res
+            rw [e0] at e3 ⊢
+            have hjn := mul_mono 0 j res (Nat.zero_le _) hres
+            simp only [Int.natCast_zero, Int.zero_mul] at hjn
+            constructor
+            · rintro ⟨q, hq, hq2, hq3⟩
+              exact ⟨q, List.mem_cons_of_mem _ hq, by omega, by omega⟩
+            · rintro ⟨q, hq, hq2, hq3⟩
+              rcases List.mem_cons.mp hq with rfl | hq
+              · omega
+              · exact ⟨q, hq, by omega, by omega⟩
+      · rw [heq] at hi ⊢
+        have hik : i < k := by simpa using hi
+        have := getD_rep_lt k i [] hik
+        rw [List.append_nil] at this
+        rw [this]
+        exact ⟨Or.inr rfl, ⟨fun h => by simp at h, fun h => absurd h (hzero i hik)⟩⟩
+
+theorem vecGo_nolost (res stop : Int) (hres : 1 ≤ res) :
+    ∀ (ps : List Int) (ws : Int), Ascending ps →
+      ∀ q ∈ ps, ws ≤ q → q ≤ stop →
+        ∃ n : Nat, n < (vecGo res stop ws ps).length ∧
+          ws + n * res ≤ q ∧ q < ws + (n + 1) * res := by
+  intro ps
+  induction ps with
+  | nil => intro ws _ q hq; simp at hq
+  | cons p ps ih =>
+    intro ws hs q hq hwq hqs
+    have hs' : Ascending ps := (List.pairwise_cons.mp hs).2
+    have hle : ∀ q ∈ ps, p ≤ q := (List.pairwise_cons.mp hs).1
+    have hpq : p ≤ q := by
+      rcases List.mem_cons.mp hq with rfl | hq
+      · exact Int.le_refl _
+      · exact hle q hq
+    by_cases hp : p < ws
+    · rw [vecGo_lt _ _ _ _ _ hp]
+      rcases List.mem_cons.mp hq with rfl | hq
+      · omega
+      · exact ih ws hs' q hq hwq hqs
+    · obtain ⟨k, hk, hcase⟩ := vecGo_ge res stop ws p ps hres (by omega)
+      rcases hcase with ⟨hpk, heq⟩ | ⟨hst, _⟩
+      · rw [heq]
+        by_cases hqk : q < ws + k * res + res
+        · refine ⟨k, by simp, by omega, ?_⟩
+          rw [succ_mul']; omega
+        · have hq' : q ∈ ps := by
+            rcases List.mem_cons.mp hq with rfl | hq
+            · omega
+            · exact hq
+          obtain ⟨j, hj1, hj2, hj3⟩ := ih (ws + k * res + res) hs' q hq' (by omega) hqs
+          refine ⟨k + 1 + j, by simp; omega, ?_, ?_⟩
+          · rw [shift_mul]; omega
+          · have e2 := succ_mul' j res
+            have e3 := succ_mul' (k + 1 + j) res
+            have e1 := shift_mul k j res
+            omega
+      · omega
+
+theorem bin_ediv (start res q : Int) (n : Nat) (hres : 1 ≤ res)
+    (h1 : start + n * res ≤ q) (h2 : q < start + (n + 1) * res) :
+    ((q - start) / res).toNat = n := by
+  rw [succ_mul'] at h2
+  have h := Int.add_mul_ediv_right (q - start - n * res) n (c := res) (by omega)
+  have e : q - start - n * res + n * res = q - start := by omega
+  have z : (q - start - n * res) / res = 0 := Int.ediv_eq_zero_of_lt (by omega) (by omega)
+  rw [e, z] at h
+  omega
+
+theorem vectorise_eq (positions : List Int) (res start : Int) (stop? : Option Int) (v : List Nat)
+    (h : vectorise positions res start stop? = .ok v) :
+    1 ≤ res ∧ v = vecGo res (stopEff' positions stop?) start positions := by
+  unfold vectorise at h
+  by_cases hr : res < 1
+  · simp [hr] at h
+  · refine ⟨by omega, ?_⟩
+    simp only [hr, if_false] at h
+    unfold stopEff'
+    cases hl : positions.getLast? with
+    | none =>
+      rw [hl] at h
+      cases stop? with
+      | none => simp at h
+      | some e =>
+        by_cases he : e = 0
+        · simp [he] at h
+        · simp [he] at h ⊢; exact h.symm
+    | some l =>
+      rw [hl] at h
+      cases stop? with
+      | none => simp at h ⊢; exact h.symm
+      | some e =>
+        by_cases he : e = 0
+        · simp [he] at h ⊢; exact h.symm
+        · simp [he] at h ⊢; exact h.symm
+
+end Vector
+
+open _root_.Coma.Proofs.Vector
+
 theorem vectorise_bits (positions : List Int) (res start : Int) (stop? : Option Int) (v : List Nat)
     (hs : Ascending positions) (h : vectorise positions res start stop? = .ok v) :
     ∀ i, i < v.length →
       (v.getD i 0 = 1 ∨ v.getD i 0 = 0) ∧
       (v.getD i 0 = 1 ↔ ∃ p ∈ positions, start + i * res ≤ p ∧ p < start + (i + 1) * res) := by
-  sorry
+  obtain ⟨hres, rfl⟩ := vectorise_eq positions res start stop? v h
+  exact vecGo_bits res _ hres positions start hs
 
 theorem vectorise_no_label_lost (positions : List Int) (res start : Int) (stop? : Option Int) (v : List Nat)
     (hs : Ascending positions) (h : vectorise positions res start stop? = .ok v) :
     ∀ p ∈ positions, start ≤ p → p ≤ stopEff' positions stop? → ((p - start) / res).toNat < v.length := by
-  sorry
+  obtain ⟨hres, rfl⟩ := vectorise_eq positions res start stop? v h
+  intro p hp h1 h2
+  obtain ⟨n, hn, hn1, hn2⟩ := vecGo_nolost res _ hres positions start hs p hp h1 h2
+  rw [bin_ediv start res p n hres hn1 hn2]
+  exact hn
 
 theorem vectorise_ok (positions : List Int) (res start : Int) (stop? : Option Int) :
     (∃ v, vectorise positions res start stop? = .ok v) ↔
       (1 ≤ res ∧ (positions ≠ [] ∨ ∃ e, stop? = some e ∧ e ≠ 0)) := by
-  sorry
+  unfold vectorise
+  by_cases hr : res < 1
+  · simp [hr]; omega
+  · have hr' : 1 ≤ res := by omega
+    simp only [hr, if_false, hr', true_and]
+    cases hl : positions.getLast? with
+    | none =>
+      have hnil := List.getLast?_eq_none_iff.mp hl
+      subst hnil
+      cases stop? with
+      | none => simp
+      | some e => by_cases he : e = 0 <;> simp [he]
+    | some l =>
+      have hne : positions ≠ [] := by
+        intro h; subst h; simp at hl
+      cases stop? with
+      | none => simp [hne]
+      | some e => by_cases he : e = 0 <;> simp [he, hne]
 
 theorem blur_spec (v w : List Nat) (radius : Int) (h : blur v radius = .ok w) :
     w.length = v.length ∧
     ∀ i, i < v.length →
       (w.getD i 0 = 1 ∨ w.getD i 0 = 0) ∧
       (w.getD i 0 = 1 ↔ ∃ j, j < v.length ∧ v.getD j 0 ≠ 0 ∧ (i : Int) - radius ≤ j ∧ (j : Int) ≤ i + radius) := by
-  sorry
+  unfold blur at h
+  by_cases hr : radius < 0
+  · simp [hr] at h
+  · simp only [hr, if_false, Except.ok.injEq] at h
+    obtain ⟨hlen, hrest⟩ := blurGo_spec v radius.toNat 1
+      (v.map fun x => if x ≠ 0 then 1 else 0) (by simp)
+    subst h
+    refine ⟨by rw [List.length_take]; omega, fun i hi => ?_⟩
+    obtain ⟨hb, hiff⟩ := hrest i hi
+    have hget : ∀ (l : List Nat), (l.take v.length).getD i 0 = l.getD i 0 := by
+      intro l
+      simp [List.getD_eq_getElem?_getD, hi]
+    rw [hget]
+    have hbit := hb (by rw [getD_map_norm]; split <;> simp)
+    refine ⟨hbit.symm, ?_⟩
+    have h1 : ∀ x : Nat, (x = 0 ∨ x = 1) → (x = 1 ↔ x ≠ 0) := by omega
+    rw [h1 _ hbit, hiff, getD_map_norm]
+    constructor
+    · rintro (h | ⟨t, h1, h2, h3 | ⟨h3, h4⟩⟩)
+      · refine ⟨i, hi, ?_, by omega, by omega⟩
+        intro h0; rw [h0] at h; exact h rfl
+      · exact ⟨i + t, getD_ne_zero_lt _ _ h3, h3, by omega, by omega⟩
+      · exact ⟨i - t, by omega, h4, by omega, by omega⟩
+    · rintro ⟨j, hj, hv, h2, h3⟩
+      by_cases hji : j = i
+      · subst hji; left; rw [if_pos hv]; exact Nat.one_ne_zero
+      · right
+        by_cases hlt : j < i
+        · refine ⟨i - j, by omega, by omega, Or.inr ⟨by omega, ?_⟩⟩
+          have : i - (i - j) = j := by omega
+          rwa [this]
+        · refine ⟨j - i, by omega, by omega, Or.inl ?_⟩
+          have : i + (j - i) = j := by omega
+          rwa [this]
 
 theorem toBp_centre (bin res start : Int) (hres : 1 ≤ res) :
     start + bin * res ≤ toBp bin res start ∧ toBp bin res start < start + (bin + 1) * res ∧
     2 * (toBp bin res start - (start + bin * res)) ≤ res ∧
     2 * ((start + (bin + 1) * res - 1) - toBp bin res start) ≤ res := by
-  sorry
+  unfold toBp
+  rw [Int.add_mul, Int.one_mul]
+  generalize bin * res = x
+  omega
 
 theorem selectPeaks_spec {α} (count : Nat) (score : α → Int) (peaks : List α) :
     (selectPeaks count score peaks).length = min count peaks.length ∧
     ((selectPeaks count score peaks).map score).Pairwise (· ≥ ·) ∧
     ∃ rest, (selectPeaks count score peaks ++ rest).Perm peaks ∧
       ∀ x ∈ selectPeaks count score peaks, ∀ y ∈ rest, score y ≤ score x := by
-  sorry
+  have hperm : (isortDesc score peaks).Perm peaks := isort_perm _ _
+  have hsorted : (isortDesc score peaks).Pairwise (fun x y => score y ≤ score x) := by
+    have := isort_sorted (fun a => - score a) peaks
+    refine this.imp ?_
+    intro a b h
+    omega
+  unfold selectPeaks
+  refine ⟨?_, ?_, (isortDesc score peaks).drop count, ?_, ?_⟩
+  · rw [List.length_take, hperm.length_eq]
+  · rw [List.pairwise_map]
+    exact (hsorted.sublist (List.take_sublist _ _)).imp (fun h => h)
+  · rw [List.take_append_drop]; exact hperm
+  · rw [← List.take_append_drop count (isortDesc score peaks)] at hsorted
+    exact (List.pairwise_append.mp hsorted).2.2
 
 end Coma.Proofs
